@@ -13,7 +13,7 @@ CONSTANTS
   Bug = {}
   GenMode = "C06"
   GenDepth = 0
-  LifeDepth = 5
+  LifeDepth = 4
   Canon = FALSE
 VIEW GenView06
 INVARIANT EmitTrace
